@@ -38,7 +38,7 @@ func c08Options() []c08Handler {
 		for _, st := range []string{"t1", "t2"} {
 			opts = append(opts, c08Handler{Sub: s, STopic: st, HasPub: false})
 			for _, p := range []string{"pA", "pB"} {
-				for _, pt := range []string{"t1", "t2"} {
+				for _, pt := range []string{"t1", "t2", ""} { // "" is a topic like any other
 					opts = append(opts, c08Handler{Sub: s, STopic: st, HasPub: true, Pub: p, PTopic: pt})
 				}
 			}
@@ -76,6 +76,9 @@ func runC08(c *Ctx) error {
 		for k := range cfgs[i] {
 			h := &cfgs[i][k]
 			h.Name = fmt.Sprintf("h%d", k+1)
+			if k == 0 && i%3 == 1 {
+				h.Name = "" // a name like any other
+			}
 			pubname, pub, pt := "message.disabledPublisher", "", ""
 			if h.HasPub {
 				pubname, pub, pt = h.Pub, h.Pub, h.PTopic
@@ -233,14 +236,22 @@ func c08Run(r *tr.Run, hs []c08Handler, rng *rand.Rand) {
 		}
 	})
 	for _, h := range hs {
-		hname := prefix + h.Name
-		_ = hname
+		var handle *message.Handler
 		if h.HasPub {
-			router.AddHandler(h.Name, h.STopic, subs[h.Sub], h.PTopic, pubs[h.Pub], mkHandler(h))
+			handle = router.AddHandler(h.Name, h.STopic, subs[h.Sub], h.PTopic, pubs[h.Pub], mkHandler(h))
 		} else {
 			f := mkHandler(h)
-			router.AddNoPublisherHandler(h.Name, h.STopic, subs[h.Sub], func(msg *message.Message) error { _, err := f(msg); return err })
+			handle = router.AddNoPublisherHandler(h.Name, h.STopic, subs[h.Sub], func(msg *message.Message) error { _, err := f(msg); return err })
 		}
+		// the handler's own middleware: part of this handler's chain and of no other
+		name := h.Name
+		handle.AddMiddleware(func(next message.HandlerFunc) message.HandlerFunc {
+			return func(msg *message.Message) ([]*message.Message, error) {
+				outs, err := next(msg)
+				r.Emit("hmw", "m", mid(msg.UUID), "h", name)
+				return outs, err
+			}
+		})
 	}
 	ctx, cancel := context.WithCancel(context.Background())
 	defer cancel()
